@@ -260,7 +260,7 @@ func (o *fillOpt) wantOptional() bool {
 	switch o.present {
 	case "none":
 		return false
-	case "all", "holes", "emptylists":
+	case "all", "holes", "emptylists", "defaults":
 		return true
 	case "only":
 		return k == o.only
@@ -376,6 +376,61 @@ func (o *fillOpt) fill(v reflect.Value, depth int) {
 				}
 			}
 			o.fill(f, depth+1)
+			if o.present == "defaults" {
+				// a member that carries exactly the DEFAULT of its type is still a present member
+				if dv, ok := defaultOfTag(t.Field(i).Tag.Get("ber")); ok {
+					setFirstScalar(f, dv)
+				}
+			}
+		}
+	}
+}
+
+// defaultOfTag extracts the value of "default:<v>" from a ber tag (numbers, TRUE/FALSE).
+func defaultOfTag(tag string) (int64, bool) {
+	for _, part := range strings.Split(tag, ",") {
+		if strings.HasPrefix(part, "default:") {
+			v := part[8:]
+			switch strings.ToUpper(v) {
+			case "TRUE":
+				return 1, true
+			case "FALSE":
+				return 0, true
+			}
+			if n, err := strconv.ParseInt(v, 10, 64); err == nil {
+				return n, true
+			}
+		}
+	}
+	return 0, false
+}
+
+// setFirstScalar sets the first integer / boolean reachable through pointers and single-field wrappers.
+func setFirstScalar(v reflect.Value, x int64) {
+	for depth := 0; depth < 6; depth++ {
+		switch v.Kind() {
+		case reflect.Ptr:
+			if v.IsNil() {
+				return
+			}
+			v = v.Elem()
+		case reflect.Struct:
+			if v.NumField() == 0 {
+				return
+			}
+			v = v.Field(0)
+		case reflect.Int, reflect.Int32, reflect.Int64:
+			if v.CanSet() {
+				v.SetInt(x)
+			}
+			return
+		case reflect.Bool:
+			if v.CanSet() {
+				v.SetBool(x != 0)
+			}
+			return
+		default:
+			return
 		}
 	}
 }
